@@ -37,6 +37,7 @@ func runC28(p *Prog, r *Result) {
 	r.Rule("R28c", "integers from the program reach indexes, slice bounds, make sizes and repeat counts only under a lower and an upper guard", 6)
 	r.Rule("R28e", "shifts by a signed, non-constant count and integer divisions by a non-constant divisor are dominated by the test that rules out the panicking value", 4)
 	r.Rule("R28g", "interface- and function-typed Runner fields used by code reachable from option closures are initialised by New's literal (options run before the default fallbacks)", 1)
+	r.Rule("R28h", "a variable's List is replaced only together with its Indexes (a sparse array's index list must stay parallel to its values, or lookups index past it)", 4)
 	r.Rule("R28d", "indexes taken from state that survives a call are guarded against the length of what they index", 2)
 
 	g := buildRefGraph(p)
@@ -61,6 +62,12 @@ func runC28(p *Prog, r *Result) {
 	}
 	reach := g.reachable(roots...)
 	checkConfigTimeNil(p, r, g)
+	r.Rule("R28i", "iterator literals in expand and interp never call yield after a point where it may have returned false without testing a stopped flag (shared with C06 R06j)", 2)
+	for _, rel := range []string{"expand", "interp"} {
+		if pk := p.Pkg(rel); pk != nil {
+			checkIteratorProtocol(p, r, pk, rel, "R28i")
+		}
+	}
 	for _, rel := range c28Pkgs {
 		pkg := p.Pkg(rel)
 		if pkg == nil {
@@ -76,6 +83,7 @@ func runC28(p *Prog, r *Result) {
 			checkTaintedInts(p, r, pkg, rel, fd)
 			checkStateIndexes(p, r, pkg, rel, fd)
 			checkShiftsAndDivisions(p, r, pkg, rel, fd)
+			checkListIndexesPairing(p, r, pkg, rel, fd)
 		}
 	}
 }
@@ -1743,6 +1751,20 @@ func checkTaintedInts(p *Prog, r *Result, pkg *packages.Package, rel string, fd 
 			if fn := calleeOf(info, x); fn != nil && qualName(fn) == "strings.Repeat" && len(x.Args) == 2 && mentionsTainted(x.Args[1]) != nil {
 				sinks = append(sinks, sink{x, x.Args[1], "size", "strings.Repeat"})
 			}
+			// index parameters of the slices package panic like slice expressions do
+			if fn := calleeOf(info, x); fn != nil && fn.Pkg() != nil && fn.Pkg().Path() == "slices" {
+				switch fn.Name() {
+				case "Delete", "Insert", "Replace":
+					for ai, a := range x.Args {
+						if ai == 0 || (fn.Name() == "Insert" && ai > 1) || (fn.Name() == "Replace" && ai > 2) || (fn.Name() == "Delete" && ai > 2) {
+							continue
+						}
+						if mentionsTainted(a) != nil {
+							sinks = append(sinks, sink{x, a, "slice", "slices." + fn.Name() + "(" + exprString(x.Args[0]) + ")"})
+						}
+					}
+				}
+			}
 		}
 		return true
 	})
@@ -2132,6 +2154,101 @@ func checkConfigTimeNil(p *Prog, r *Result, g *refGraph) {
 	}
 }
 
+// ---------------------------------------------------------------- R28h
+
+func checkListIndexesPairing(p *Prog, r *Result, pkg *packages.Package, rel string, fd *ast.FuncDecl) {
+	info := pkg.TypesInfo
+	isVariable := func(t types.Type) bool {
+		n := namedOf(t)
+		return n != nil && n.Obj().Name() == "Variable" && n.Obj().Pkg() != nil && strings.HasSuffix(n.Obj().Pkg().Path(), "/expand")
+	}
+	var g *FGraph
+	ast.Inspect(fd.Body, func(n ast.Node) bool {
+		as, ok := n.(*ast.AssignStmt)
+		if !ok {
+			return true
+		}
+		for i, l := range as.Lhs {
+			se, ok := ast.Unparen(l).(*ast.SelectorExpr)
+			if !ok || se.Sel.Name != "List" || !isVariable(info.TypeOf(se.X)) || i >= len(as.Rhs) && len(as.Rhs) != 1 {
+				continue
+			}
+			base := exprString(se.X)
+			// same statement stores Indexes too
+			paired := false
+			for _, l2 := range as.Lhs {
+				if s2, ok := ast.Unparen(l2).(*ast.SelectorExpr); ok && s2.Sel.Name == "Indexes" && exprString(s2.X) == base {
+					paired = true
+				}
+			}
+			// append onto itself keeps a dense list dense and is only used on fresh values
+			if len(as.Rhs) == len(as.Lhs) {
+				if c, ok := ast.Unparen(as.Rhs[i]).(*ast.CallExpr); ok && isBuiltinCall(info, c, "append") && len(c.Args) > 0 && exprString(c.Args[0]) == exprString(l) {
+					continue
+				}
+			}
+			// a fresh zero Variable declared in this function has nil Indexes
+			if id, ok := ast.Unparen(se.X).(*ast.Ident); ok {
+				fresh := false
+				ast.Inspect(fd.Body, func(m ast.Node) bool {
+					if ds, ok := m.(*ast.DeclStmt); ok {
+						if gd, ok := ds.Decl.(*ast.GenDecl); ok {
+							for _, sp := range gd.Specs {
+								if vs, ok := sp.(*ast.ValueSpec); ok && len(vs.Values) == 0 {
+									for _, nm := range vs.Names {
+										if info.Defs[nm] == info.ObjectOf(id) {
+											fresh = true
+										}
+									}
+								}
+							}
+						}
+					}
+					return true
+				})
+				if fresh {
+					continue
+				}
+			}
+			key := fmt.Sprintf("%s#%s.List replaced", relKey(rel, fd), base)
+			if paired {
+				r.OK("R28h", key, as.Pos(), "Indexes stored in the same statement")
+				continue
+			}
+			if g == nil {
+				g = NewFGraph(info, fd.Body, nil)
+			}
+			blk, idx := g.BlockOf(as)
+			storesIdx := func(k ast.Node) bool {
+				a2, ok := k.(*ast.AssignStmt)
+				if !ok {
+					return false
+				}
+				for _, l2 := range a2.Lhs {
+					if s2, ok := ast.Unparen(l2).(*ast.SelectorExpr); ok && s2.Sel.Name == "Indexes" && exprString(s2.X) == base {
+						return true
+					}
+				}
+				return false
+			}
+			ok2 := false
+			if blk != nil {
+				ok2, _ = g.MustPass(blk, idx, g.Exit, storesIdx, nil)
+				if !ok2 {
+					for _, k := range blk.Nodes[:idx] {
+						if storesIdx(k) {
+							ok2 = true
+						}
+					}
+				}
+			}
+			r.Check(ok2, "R28h", key, as.Pos(), "Indexes is stored on every path before the function returns (or just before, in the same block)",
+				fmt.Sprintf("%s.List is replaced and some path returns without storing %s.Indexes: a variable that was a sparse array keeps an index list of another length, and the next element lookup indexes past the values", base, base))
+		}
+		return true
+	})
+}
+
 // ---------------------------------------------------------------- R28e
 
 func checkShiftsAndDivisions(p *Prog, r *Result, pkg *packages.Package, rel string, fd *ast.FuncDecl) {
@@ -2221,6 +2338,8 @@ func checkShiftsAndDivisions(p *Prog, r *Result, pkg *packages.Package, rel stri
 }
 
 var c28Controls = []Control{
+	{Name: "array-assign-keeps-stale-indexes", Rule: "R28h", WantKey: "assignVal#prev.List replaced", File: "interp/vars.go",
+		Mutate: ctlReplaceAnywhere("\tprev.Kind = expand.Indexed\n\tprev.List = list\n\tprev.Indexes = indexes\n\treturn name, prev\n", "\tprev.Kind = expand.Indexed\n\tprev.List = list\n\treturn name, prev\n")},
 	{Name: "new-leaves-stdout-nil-for-options", Rule: "R28g", WantKey: "Runner.stdout", File: "interp/api.go",
 		Mutate: ctlReplaceAnywhere("\t\tstdout: io.Discard,\n", "")},
 	{Name: "handler-exit-status-zero-keeps-error", Rule: "R28b", WantKey: "Run#panic", File: "interp/api.go",
